@@ -461,6 +461,25 @@ fn monitor_c10_c11(tr: &mut Trace, v: &View, spec: &Spec, fail_before_start: boo
         tr.mon_fail("c10.resubmit", "pending-tasks", &format!("resubmitted {:?}, expected {:?}", got, want));
         tr.mon_fail("c03.restart", "pending-deps", "see c10.resubmit");
     }
+    // --- c03.restart: what the journal durably records is closed under failure propagation at every crash point:
+    // a task handed back to the core after a restart has no dependency whose recorded outcome is
+    // failed / canceled / aborted (such a dependency can never finish; the restore drops it from the
+    // dependency list, so the dependent would START although its dependency never finished)
+    for (job, t, _) in &got {
+        let Some(sj) = spec.jobs.get(job) else { continue };
+        let Some(a) = sj.find(*t) else { continue };
+        for d in &a.deps {
+            if let Some(b) = sj.find(*d) {
+                if matches!(b.st, Outcome::Failed | Outcome::Canceled | Outcome::Aborted) {
+                    tr.mon_fail(
+                        "c03.restart",
+                        "dependent-of-unsuccessful-task-resubmitted",
+                        &format!("after a restart from the first {} records task {job}.{t} is resubmitted to run, its dependency {job}.{d} is recorded as {}", recs.len(), b.st.tok()),
+                    );
+                }
+            }
+        }
+    }
     // --- restart clauses of C06 / C07 (instance ids, crash counts as the core holds them)
     if let Some(core) = &v.core {
         for (j, t, inst, crash, _) in core {
